@@ -4,7 +4,7 @@
 
    One action per public call of the class:
 
-     Step   VariantDatasetCombiner.step():   _step_gvcfs  if GVCFs remain, else _step_vdses
+     StepGvcfs / StepVdses   VariantDatasetCombiner.step():   _step_gvcfs if GVCFs remain, else _step_vdses
      Save   VariantDatasetCombiner.save():   the plan (to_dict) is written to save_path
      Crash  the process dies: everything in memory (including _job_id and _uuid) is lost
      Load   load_combiner(save_path):        a new combiner is built from the saved plan
@@ -116,7 +116,7 @@ StepGvcfs ==
       RECURSIVE AddAll(_, _)
       AddAll(b, c) == IF c > nch THEN b ELSE AddAll(AppendBin(b, Bin1(md(c).n), md(c)), c + 1)
   IN
-  /\ mem.gvcfs # <<>>
+  /\ mem.alive /\ mem.gvcfs # <<>>
   /\ IF rest = <<>> /\ DOMAIN mem.bins = {} /\ nch = 1
      THEN \* finished and a single dataset: it is the output
           /\ store' = Put(store, OutPath, [leaves |-> chunk(1)])
@@ -153,7 +153,7 @@ StepVdses ==
       path   == <<mem.epoch, "v", mem.job, 0>>
       nb     == IF FL(newn) <= b0 THEN b0 + 1 ELSE FL(newn)
   IN
-  /\ mem.gvcfs = <<>> /\ DOMAIN mem.bins # {}
+  /\ mem.alive /\ mem.gvcfs = <<>> /\ DOMAIN mem.bins # {}
   /\ IF DOMAIN r.bins = {}
      THEN /\ store' = Put(store, OutPath, [leaves |-> merged])
           /\ mem' = [mem EXCEPT !.bins = <<>>]
@@ -162,7 +162,7 @@ StepVdses ==
                                 !.job = mem.job + 1]
   /\ UNCHANGED <<par, disk, nextepoch, crashes>>
 
-Step == mem.alive /\ ~Finished(mem) /\ (StepGvcfs \/ StepVdses)
+Step == StepGvcfs \/ StepVdses          \* step(): nothing to do (disabled) when finished
 
 Save ==
   /\ mem.alive
@@ -190,7 +190,7 @@ LoadRefused ==
   /\ disk.saved /\ Refusing
   /\ UNCHANGED vars
 
-Next == Step \/ Save \/ Crash \/ Load \/ LoadRefused
+Next == StepGvcfs \/ StepVdses \/ Save \/ Crash \/ Load \/ LoadRefused
 Spec == Init /\ [][Next]_vars
 FairSpec == Spec /\ WF_vars(Step) /\ WF_vars(Load)
 
